@@ -379,9 +379,11 @@ func init() {
 			"non-trivial = the reference relation has a cycle; distinct = distinct atom set",
 		Assumptions: []string{
 			"oracle: own reachability on the relation of the statement; every reported line is checked edge by edge against an independently built fine-grained graph (tag / decorator pseudo-nodes as the tool prints them)",
-			"run-time half (CircularDeps()==nil, GetParam terminates) is observed by the probe-based checks on accepted configurations",
+			"run-time half: every acyclic atom set of size <= 1 (thorough <= 2; quick a quarter of the pairs) and every acyclic parameter graph is compiled and executed (CircularDeps(), GetParam and Get of everything) against the reference model",
 		},
-		BudgetQuick: 150 * time.Second, BudgetThorough: 900 * time.Second,
+		BudgetQuick: 200 * time.Second, BudgetThorough: 1200 * time.Second,
+		Prepare:     PrepareUniverse,
+		CaseTimeout: 900 * time.Second,
 		Run: func(w *W) {
 			k := 3
 			if !w.Env.Quick() {
@@ -440,6 +442,53 @@ func init() {
 				}
 				w.Case(fmt.Sprintf("services/%03x", mask), func(c *C) { c07eval(w, c, sel, 0) })
 			}
+			// run-time half for accepted configurations: CircularDeps() is nil, every parameter and service is
+			// obtainable (a missed parameter cycle would deadlock: the probe's 300 s limit reports it as a hang)
+			var accepted []*BCase
+			addProbe := func(id string, sel []c07atom, style int) {
+				m := c07build(sel, style)
+				if len(onCycle(m.coarse)) > 0 {
+					return
+				}
+				cfg := m.cfg
+				cfg.Meta = stdMeta()
+				for i := range cfg.Services {
+					cfg.Services[i].Constructor = P("pk.New")
+				}
+				for i := range cfg.Decorators {
+					cfg.Decorators[i].Decorator = "pk2.Dec" + string(rune('1'+i%3))
+				}
+				ops := []ProbeOp{op("circ", "")}
+				for _, p := range c07par {
+					ops = append(ops, op("param", p))
+				}
+				for _, sv := range c07svc {
+					ops = append(ops, op("get", sv))
+				}
+				accepted = append(accepted, &BCase{ID: id, Cfg: cfg, Sessions: []BSession{{Ops: ops}}})
+			}
+			for size := 0; size <= 2; size++ {
+				combos(n, size, func(idx []int) {
+					if size == 2 && w.Env.Quick() && (idx[0]+idx[1])%4 != 0 {
+						return // quick: a quarter of the pairs
+					}
+					sel := make([]c07atom, len(idx))
+					for i, x := range idx {
+						sel[i] = c07atoms[x]
+					}
+					addProbe(fmt.Sprintf("probe/k%d/%v", size, idx), sel, 0)
+				})
+			}
+			for mask := 0; mask < 512; mask++ {
+				var sel []c07atom
+				for b := 0; b < 9; b++ {
+					if mask&(1<<uint(b)) != 0 {
+						sel = append(sel, c07atom{"pp", b / 3, b % 3})
+					}
+				}
+				addProbe(fmt.Sprintf("probe/params/%03x", mask), sel, 1)
+			}
+			runBatches(w, "c07probe", accepted, 40, behaviourOracle)
 			// the longest elementary tag/decorator chains (6 atoms) through every assignment of roles
 			for s1 := 0; s1 < 3; s1++ {
 				for s2 := 0; s2 < 3; s2++ {
